@@ -669,7 +669,7 @@ func ruleRequestedPortsNotInvented(c *Ctx, rule string) {
 	var origin func(v ssa.Value, plus int, depth int, seen map[ssa.Value]bool) string
 	origin = func(v ssa.Value, plus int, depth int, seen map[ssa.Value]bool) string {
 		v = stripIntConv(w.resolveLoad(v))
-		if depth > 8 {
+		if depth > 16 {
 			return "too deep: " + w.key(v)
 		}
 		if seen[v] {
@@ -693,6 +693,9 @@ func ruleRequestedPortsNotInvented(c *Ctx, rule string) {
 		case *ssa.BinOp:
 			if k, ok := constInt(x.Y); ok && x.Op == token.ADD && k == 1 && plus == 0 {
 				return origin(x.X, 1, depth+1, seen)
+			}
+			if k, ok := constInt(x.X); ok && x.Op == token.ADD && k == 1 && plus == 0 {
+				return origin(x.Y, 1, depth+1, seen)
 			}
 			return "computed as " + w.key(x)
 		case *ssa.Parameter:
